@@ -63,6 +63,11 @@ fn fusion_leaves(thorough: bool) -> Vec<E> {
         E::Call(Box::new(id("f")), Args::Str(long_string())),
         E::Call(Box::new(id("f")), Args::Table(vec![])),
         E::Method(Box::new(id("o")), "m", Args::Tuple(vec![])),
+        E::MethodInst(Box::new(id("o")), "m", vec![Ty::Name("T")], Args::Tuple(vec![id("a")])),
+        E::MethodInst(Box::new(id("o")), "m", vec![Ty::Name("T"), Ty::Array(Box::new(Ty::Name("U")))], Args::Str(b"s".to_vec())),
+        E::MethodInst(Box::new(call(id("f"), vec![])), "m", vec![], Args::Table(vec![])),
+        E::Call(Box::new(E::Inst(Box::new(id("f")), vec![Ty::Name("number")])), Args::Tuple(vec![])),
+        E::Call(Box::new(E::Inst(Box::new(E::Field(Box::new(id("a")), "b")), vec![Ty::Name("T"), Ty::Name("U")])), Args::Tuple(vec![id("a")])),
         E::Field(Box::new(id("a")), "b"),
         E::Index(Box::new(id("a")), Box::new(E::Num(1.0))),
         E::Index(Box::new(id("a")), Box::new(E::Str(long_string()))),
